@@ -11,7 +11,11 @@ use std::collections::BTreeSet;
 use std::panic::AssertUnwindSafe;
 use std::sync::Mutex;
 
-pub const ENTRIES: [&str; 9] = ["narsese", "chars", "multi1", "multi2", "multi_lines", "truth", "budget", "stamp", "punctuation"];
+pub const ENTRIES: [&str; 10] = ["narsese", "chars", "multi1", "multi2", "multi_lines", "truth", "budget", "stamp", "punctuation", "options"];
+
+/// the item-wise result type: `parse::<NarseseOptions<..>>` is a public entry point too (the private alias
+/// `MidParseResult` of the parser is this public type)
+pub type Options = narsese::api::NarseseOptions<Budget, narsese::enum_narsese::Term, Punctuation, Stamp, Truth>;
 
 fn kind(n: &Narsese) -> &'static str {
     match n {
@@ -81,6 +85,7 @@ pub fn run_entry(f: &F, entry: &str, s: &str) -> Result<String, String> {
             "budget" => cls(f.e.parse::<Budget>(s), |_| "Ok(budget)".to_string()),
             "stamp" => cls(f.e.parse::<Stamp>(s), |_| "Ok(stamp)".to_string()),
             "punctuation" => cls(f.e.parse::<Punctuation>(s), |_| "Ok(punctuation)".to_string()),
+            "options" => cls(f.e.parse::<Options>(s), |_| "Ok(options)".to_string()),
             _ => unreachable!(),
         }
     }))
